@@ -38,8 +38,9 @@ Definition state_eqb (a b : state) :=
   list_eqb slot_eqb (slots a) (slots b) && list_eqb (opt_eqb Nat.eqb) (srcs a) (srcs b).
 
 (* ------------------------------------------------------------------ (2) interpreting micro-operations *)
+(* cx_valp: the `const T & val` argument is bound to cell (buffer, index) — None: to a temporary holding cx_v *)
 Record callctx := { cx_i : nat; cx_j : nat; cx_argp : option (nat * nat); cx_argc : list N;
-                    cx_n : nat; cx_v : N; cx_off : nat }.
+                    cx_n : nat; cx_v : N; cx_off : nat; cx_valp : option (nat * nat) }.
 
 (* the object under construction / being mutated, whichever class it is, and the `other` OwnedArray *)
 Record mach := { m_st : state; m_arr : arr; m_vb : option nat; m_own : option nat; m_held : option nat;
@@ -91,6 +92,17 @@ Definition read_arg (cx : callctx) (st : state) : option (list N) :=
       end
   end.
 
+(* the value a `const T &` argument designates when it is read: use-after-free (None) if its storage is gone *)
+Definition read_val (cx : callctx) (st : state) : option N :=
+  match cx_valp cx with
+  | None => Some (cx_v cx)
+  | Some (b, k) =>
+      match nth_error (heap st) b with
+      | Some bu => if b_alive bu then nth_error (b_cells bu) k else None
+      | None => None
+      end
+  end.
+
 Definition exec1 (cx : callctx) (o : mop) (m : mach) : mach :=
   let st := m_st m in
   match o with
@@ -129,8 +141,29 @@ Definition exec1 (cx : callctx) (o : mop) (m : mach) : mach :=
       | None => m
       end
   | MBufResize =>
-      let '(st1, vb') := vec_resize st (m_vb m) (cx_n cx) (cx_v cx) in
-      mk st1 (m_arr m) vb' (m_own m) (m_held m) (m_oarr m) (m_ovb m) (m_bad m)
+      (* std::vector::resize(n, val) itself copes with val referring to one of its own elements (libstdc++ copies the
+         value / constructs the new elements before it releases the old storage): the value is read here *)
+      match read_val cx st with
+      | Some v =>
+          let '(st1, vb') := vec_resize st (m_vb m) (cx_n cx) v in
+          mk st1 (m_arr m) vb' (m_own m) (m_held m) (m_oarr m) (m_ovb m) (m_bad m)
+      | None => bad m
+      end
+  | MBufReserve =>
+      match m_vb m with
+      | Some b =>
+          match nth_error (heap st) b with
+          | Some bu => if cx_n cx <=? b_cap bu then m
+                       else let '(st1, b') := alloc st (b_cells bu) (cx_n cx) in
+                            mk (release_buf st1 (Some b)) (m_arr m) (Some b') (m_own m) (m_held m) (m_oarr m) (m_ovb m) (m_bad m)
+          | None => bad m
+          end
+      | None => match cx_n cx with
+                | O => m
+                | _ => let '(st1, b') := alloc st [] (cx_n cx) in
+                       mk st1 (m_arr m) (Some b') (m_own m) (m_held m) (m_oarr m) (m_ovb m) (m_bad m)
+                end
+      end
   | MArrNew =>
       let '(st1, b) := alloc st (repeat 0%N (cx_n cx)) (cx_n cx) in
       mk (release_buf st1 (m_own m)) (m_arr m) (m_vb m) (Some b) (m_held m) (m_oarr m) (m_ovb m) (m_bad m)
@@ -256,25 +289,33 @@ Definition hA : list op :=
 Definition stA := run_new (init 6 3) hA.           (* 0: Owned [1,2,3]  1: Owned [7] (capacity 2)  2: Fixed [1,2,3]  3: View *)
 Definition stB := run_new (init 6 3) (hA ++ [Reset 0; FromSrc 4 KFixed 2]).   (* 0: empty Owned, 4: Fixed of size 0 *)
 
-Definition cx0 i j := {| cx_i := i; cx_j := j; cx_argp := None; cx_argc := []; cx_n := 0; cx_v := 0%N; cx_off := 0 |}.
+Definition cx0 i j := {| cx_i := i; cx_j := j; cx_argp := None; cx_argc := []; cx_n := 0; cx_v := 0%N; cx_off := 0; cx_valp := None |}.
 Definition cx_src st i k :=
   match whole st k with
-  | Some (p, c) => {| cx_i := i; cx_j := i; cx_argp := p; cx_argc := c; cx_n := length c; cx_v := 0%N; cx_off := 0 |}
+  | Some (p, c) => {| cx_i := i; cx_j := i; cx_argp := p; cx_argc := c; cx_n := length c; cx_v := 0%N; cx_off := 0; cx_valp := None |}
   | None => cx0 i i
   end.
 Definition cx_ptr st i p n :=
   match resolve st p n with
-  | Some (q, c) => {| cx_i := i; cx_j := i; cx_argp := q; cx_argc := c; cx_n := n; cx_v := 0%N; cx_off := 0 |}
+  | Some (q, c) => {| cx_i := i; cx_j := i; cx_argp := q; cx_argc := c; cx_n := n; cx_v := 0%N; cx_off := 0; cx_valp := None |}
   | None => cx0 i i
   end.
 Definition cx_wrap st i j off n :=
   match resolve_wrap st j off n with
-  | Some (q, c) => {| cx_i := i; cx_j := i; cx_argp := q; cx_argc := c; cx_n := n; cx_v := 0%N; cx_off := 0 |}
+  | Some (q, c) => {| cx_i := i; cx_j := i; cx_argp := q; cx_argc := c; cx_n := n; cx_v := 0%N; cx_off := 0; cx_valp := None |}
   | None => cx0 i i
   end.
-Definition cx_resize i n v := {| cx_i := i; cx_j := i; cx_argp := None; cx_argc := []; cx_n := n; cx_v := v; cx_off := 0 |}.
-Definition cx_fixn i n := {| cx_i := i; cx_j := i; cx_argp := None; cx_argc := []; cx_n := n; cx_v := 0%N; cx_off := 0 |}.
-Definition cx_fview i j off n := {| cx_i := i; cx_j := j; cx_argp := None; cx_argc := []; cx_n := n; cx_v := 0%N; cx_off := off |}.
+Definition cx_resize i n v := {| cx_i := i; cx_j := i; cx_argp := None; cx_argc := []; cx_n := n; cx_v := v; cx_off := 0; cx_valp := None |}.
+(* w_i.resize(n, w_j[idx]) *)
+Definition cx_resize_ref st i n j idx :=
+  match slot_arr st (slot_at st j), elem_ref st j idx with
+  | Some a, Some v =>
+      {| cx_i := i; cx_j := i; cx_argp := None; cx_argc := []; cx_n := n; cx_v := v; cx_off := 0;
+         cx_valp := match a_ptr a with Some (b, o) => Some (b, o + idx) | None => None end |}
+  | _, _ => cx0 i i
+  end.
+Definition cx_fixn i n := {| cx_i := i; cx_j := i; cx_argp := None; cx_argc := []; cx_n := n; cx_v := 0%N; cx_off := 0; cx_valp := None |}.
+Definition cx_fview i j off n := {| cx_i := i; cx_j := j; cx_argp := None; cx_argc := []; cx_n := n; cx_v := 0%N; cx_off := off; cx_valp := None |}.
 
 (* (state, member, context, the model operation it implements) *)
 Definition configs : list (state * member * callctx * op) :=
@@ -303,6 +344,13 @@ Definition configs : list (state * member * callctx * op) :=
     (S, OA_CPtr, cx_wrap S 4 0 1 2, FromWrap 4 KOwned 0 1 2); (S, OA_CPtr, cx_wrap S 4 2 0 3, FromWrap 4 KOwned 2 0 3);
     (S, AV_CPtr, cx_wrap S 4 0 0 3, FromWrap 4 KView 0 0 3); (S, AV_CPtr, cx_wrap S 4 2 1 1, FromWrap 4 KView 2 1 1);
     (S, FA_CPtr, cx_wrap S 4 0 1 2, FromWrap 4 KFixed 0 1 2); (S, FA_CPtr, cx_wrap S 4 2 0 3, FromWrap 4 KFixed 2 0 3);
+    (* the fill value passed by reference to an element of the array itself / of another wrapper:
+       growth past the capacity, within the capacity, no change, shrinking below the referenced element *)
+    (S, OA_Resize, cx_resize_ref S 0 5 0 1, ResizeRef 0 5 0 1); (S, OA_Resize, cx_resize_ref S 0 9 0 2, ResizeRef 0 9 0 2);
+    (S, OA_Resize, cx_resize_ref S 1 2 1 0, ResizeRef 1 2 1 0); (S, OA_Resize, cx_resize_ref S 1 7 1 0, ResizeRef 1 7 1 0);
+    (S, OA_Resize, cx_resize_ref S 0 3 0 2, ResizeRef 0 3 0 2); (S, OA_Resize, cx_resize_ref S 0 1 0 2, ResizeRef 0 1 0 2);
+    (S, OA_Resize, cx_resize_ref S 0 0 0 0, ResizeRef 0 0 0 0); (S, OA_Resize, cx_resize_ref S 0 6 2 1, ResizeRef 0 6 2 1);
+    (S, OA_Resize, cx_resize_ref S 1 5 0 2, ResizeRef 1 5 0 2);
     (S, OA_Resize, cx_resize 0 5 9%N, Resize 0 5 9%N); (S, OA_Resize, cx_resize 1 2 9%N, Resize 1 2 9%N);
     (S, OA_Resize, cx_resize 0 1 9%N, Resize 0 1 9%N); (S, OA_Resize, cx_resize 0 0 9%N, Resize 0 0 9%N);
     (S, OA_Resize, cx_resize 0 3 9%N, Resize 0 3 9%N); (S, OA_Resize, cx_resize 1 3 9%N, Resize 1 3 9%N);
